@@ -30,7 +30,7 @@ def run_threads(progs, warm, deadline=240):
 def run(ctx, scale=1):
     rep = ctx.rep
     rng = ctx.rng
-    A = c15.alphabet() + [pc for name, pc in c15.probes() if not name.startswith("operators:")]
+    A = c15.alphabet() + [pc for name, pc in c15.probes() if not name.startswith("operators:") and name != "process-settings"]
     # drop the deliberately slow / huge ones: none; reference = each distinct call alone in a fresh interpreter
     keys = [json.dumps(c, sort_keys=True) for c in A]
     uniq = {}
